@@ -203,7 +203,7 @@ class LP:
         if isinstance(n, LP):
             c = n.asconst()
             if c is None:
-                raise TypeError("symbolic exponent is outside the ring (instantiate the exponent)")
+                return powatom(s, n)
             n = c
         if isinstance(n, Fraction):
             fr = n
@@ -229,10 +229,9 @@ class LP:
         return nthroot(s, fr.denominator) ** fr.numerator
 
     def __rpow__(s, base):
-        # base ** s : only for constant exponents
         c = s.asconst()
         if c is None:
-            raise TypeError("symbolic exponent")
+            return powatom(co(base), s)
         return co(base) ** c
 
     def asconst(s):
@@ -456,8 +455,8 @@ def fn(kind, p: LP) -> LP:
     k = (kind, p.key())
     if k in _fns:
         return LP.gen(_fns[k])
-    for (kind2, _), g in list(_fns.items()):
-        if kind2 != kind:
+    for k2, g in list(_fns.items()):
+        if k2[0] != kind or len(k2) != 2:
             continue
         a = DEFS[g][2]
         if SEMANTIC_ATOMS and iszero(p - a):
@@ -475,6 +474,35 @@ def fn(kind, p: LP) -> LP:
     _fns[k] = g
     if kind == "log":
         SIDE.append((p, ">", "log"))
+    return LP.gen(g)
+
+
+def powatom(base: LP, expo: LP) -> LP:
+    """base ** expo for a symbolic real exponent (base > 0 is logged as a side condition): an atom
+    pw with d pw = pw * (expo * d base / base + log(base) * d expo).  Atoms with the same base whose
+    exponents differ by an integer share one generator (pw(p, a + k) = pw(p, a) * p**k)."""
+    cb = base.asconst()
+    if cb is not None and cb == 1:
+        return LP.const(1)
+    ce = expo.asconst()
+    if ce is not None:
+        return base**ce
+    k = ("pow", base.key(), expo.key())
+    if k in _fns:
+        return LP.gen(_fns[k])
+    for k2, g in list(_fns.items()):
+        if k2[0] != "pow":
+            continue
+        b2, e2 = DEFS[g][2], DEFS[g][3]
+        if iszero(base - b2):
+            dk = (expo - e2).asconst() if not (expo - e2).t or (expo - e2).asconst() is not None else None
+            if not (expo - e2).t:
+                dk = ZERO
+            if dk is not None and dk.denominator == 1:
+                return LP.gen(g) * base ** int(dk)
+    g = newgen(f"pow{len(_fns)}", ("fn", "pow", base, expo))
+    _fns[k] = g
+    SIDE.append((base, ">", "power with real exponent"))
     return LP.gen(g)
 
 
@@ -635,6 +663,14 @@ def Dgen(g, x) -> LP:
     elif d[0] == "root":
         db = D(d[1], x)
         r = LP.gen(g) * db / (d[1] * d[2]) if db.t else LP()
+    elif d[0] == "fn" and d[1] == "pow":
+        base, expo = d[2], d[3]
+        db, de = D(base, x), D(expo, x)
+        r = LP()
+        if db.t:
+            r = r + LP.gen(g) * expo * db / base
+        if de.t:
+            r = r + LP.gen(g) * fn("log", base) * de
     elif d[0] == "fn":
         kind, arg = d[1], d[2]
         da = D(arg, x) if arg.t else LP()
@@ -690,6 +726,8 @@ def subs(s, env: dict, _cache=None) -> LP:
                 v = subs(d[1], env, cache)
             elif d[0] == "root":
                 v = nthroot(subs(d[1], env, cache), d[2])
+            elif d[0] == "fn" and d[1] == "pow":
+                v = powatom(subs(d[2], env, cache), subs(d[3], env, cache))
             elif d[0] == "fn":
                 v = LP.gen(g) if d[1].startswith("const:") else fn(d[1], subs(d[2], env, cache))
             elif d[0] == "ghost":
@@ -741,6 +779,8 @@ def tofloat(p, env: dict) -> float:
             v = ev(d[1])
         elif d[0] == "root":
             v = ev(d[1]) ** (1.0 / d[2])
+        elif d[0] == "fn" and d[1] == "pow":
+            v = ev(d[2]) ** ev(d[3])
         elif d[0] == "fn":
             if d[1] == "const:pi":
                 v = math.pi
@@ -785,6 +825,8 @@ def probe(p, env: dict):
             if b <= 0:
                 raise ValueError("root of non-positive")
             v = b ** (1.0 / d[2])
+        elif d[0] == "fn" and d[1] == "pow":
+            v = ev(d[2])[0] ** ev(d[3])[0]
         elif d[0] == "fn":
             if d[1] == "const:pi":
                 v = math.pi
